@@ -321,6 +321,19 @@ func (c *Ctx) ensureBox(srt string) {
 	c.axiom(fmt.Sprintf("(forall ((x %s)) (! (= (unbox.%s (box.%s x)) x) :pattern ((box.%s x))))", srt, srt, srt, srt))
 }
 
+// winOf: the view of array arr shifted by off (slice windows). Element reads go
+// through it so that quantified contracts over slices have a usable trigger.
+func (c *Ctx) winOf(es string, arr, off Term) Term {
+	if off == "0" {
+		return arr
+	}
+	fn := "win." + sanitize(es)
+	as := arrOf(es)
+	c.declare(fn, fmt.Sprintf("(declare-fun %s (%s Int) %s)", fn, as, as))
+	c.axiom(fmt.Sprintf("(forall ((a %s) (o Int) (i Int)) (! (= (select (%s a o) i) (select a (+ o i))) :pattern ((select (%s a o) i))))", as, fn, fn))
+	return "(" + fn + " " + arr + " " + off + ")"
+}
+
 // arraySort returns "(Array Int <elem>)"
 func arrOf(elem string) string { return "(Array Int " + elem + ")" }
 
